@@ -159,3 +159,11 @@ var ghostTableURI func(t *Table) string
 //@ func Level.AllTables
 //@   property C09 C18
 //@   inline
+
+// Table documents are serialised with encoding/json inside the checkpoints file.
+// JSON round-trips a Go string only if it is valid UTF-8; keys are arbitrary bytes.
+//@ type TableDocument
+//@   utf8 StartKey, EndKey
+
+//@ func Table.Document
+//@   property C08 C17 C06
